@@ -31,17 +31,55 @@ class Ob:
         self.witness = witness or {}
         self.meta = meta or {}
 
-    def smt2(self, extra_hyps=()):
+    def smt2(self, extra_hyps=(), abstract=False):
         s = z3.Solver()
-        for h in self.hyps:
-            s.add(h)
-        for h in extra_hyps:
-            s.add(h)
-        s.add(z3.Not(self.goal))
-        for k, t in self.witness.items():
-            c = z3.Const('wit!' + k, t.sort())
-            s.add(c == t)
+        fs = list(self.hyps) + list(extra_hyps) + [z3.Not(self.goal)]
+        if abstract:
+            cache = {}
+            fs2 = [abstract_mul(f, cache) for f in fs]
+            if not cache.get('#used'):
+                return None
+            fs = fs2 + cache.get('#axioms', [])
+        for f in fs:
+            s.add(f)
+        if not abstract:
+            for k, t in self.witness.items():
+                c = z3.Const('wit!' + k, t.sort())
+                s.add(c == t)
         return s.to_smt2()
+
+
+def abstract_mul(e, cache):
+    """replace every bit-vector multiplication of two non-constant terms by an uninterpreted
+    function (arguments in a canonical order, so commutativity is kept).  The abstraction has
+    more models than the original, so `unsat` of the abstraction is `unsat` of the original."""
+    key = e.get_id()
+    if key in cache:
+        return cache[key]
+    if z3.is_app(e):
+        kids = [abstract_mul(k, cache) for k in e.children()]
+        if e.decl().kind() == z3.Z3_OP_BMUL and len(kids) == 2 and not z3.is_bv_value(kids[0]) \
+                and not z3.is_bv_value(kids[1]):
+            a, b = kids
+            f = z3.Function('mul!%d' % e.size(), a.sort(), b.sort(), e.sort())
+            r = f(a, b)
+            cache['#used'] = True
+            # properties of the real product kept as axioms at this instance: commutativity, x*0, x*1
+            one, zero = z3.BitVecVal(1, e.size()), z3.BitVecVal(0, e.size())
+            cache.setdefault('#axioms', []).extend([
+                r == f(b, a),
+                z3.Implies(a == one, r == b), z3.Implies(b == one, r == a),
+                z3.Implies(z3.Or(a == zero, b == zero), r == zero)])
+        elif kids and any(not k.eq(o) for k, o in zip(kids, e.children())):
+            r = e.decl()(*kids)
+        else:
+            r = e
+    elif z3.is_quantifier(e):
+        r = e        # left precise (still sound: the real product is one interpretation of mul!)
+    else:
+        r = e
+    cache[key] = r
+    return r
 
 
 def _model_dict(m):
@@ -149,9 +187,14 @@ def _race(smt2, timeout_s):
 
 
 def _worker(job):
-    idx, smt2, timeout_ms, use_cvc5 = job
+    idx, smt2, timeout_ms, absmt2 = job
     try:
         first = min(timeout_ms, FIRST_SLICE_S * 1000)
+        if absmt2:
+            r, info = _solve_z3(absmt2, first)
+            if r == 'unsat':
+                info['backend'] += ' (nonlinear products abstracted by an uninterpreted function)'
+                return idx, r, info
         r, info = _solve_z3(smt2, first)
         if r == 'unknown' and timeout_ms > first:
             r2, info2 = _race(smt2, (timeout_ms - first) / 1000.0)
@@ -167,7 +210,7 @@ def discharge(obs, timeout_s=30, procs=None, extra_hyps=(), use_cvc5=True):
     procs = procs or min(16, os.cpu_count() or 4)
     jobs = []
     for i, ob in enumerate(obs):
-        jobs.append((i, ob.smt2(extra_hyps), int(timeout_s * 1000), use_cvc5))
+        jobs.append((i, ob.smt2(extra_hyps), int(timeout_s * 1000), ob.smt2(extra_hyps, abstract=True)))
     results = [None] * len(obs)
     if len(jobs) <= 1 or procs == 1:
         outs = [_worker(j) for j in jobs]
